@@ -22,17 +22,19 @@ CORR = (" The part not proved is decided by the correspondence check plus the pr
 
 P = {
  "C01": ("proof", "Props/C01.v, all configurations, populations and schedules of the micro-step model: head = number of claimed values (mod 2^63) in every reachable state; every step leaves the claim log alone or appends exactly the claiming send's value; the single-writer path's loaded head is still current when it stores (rests on the proved writers-count invariant and the control invariant). PARTIAL: 'each stream delivers exactly the log segment from its start position' (slot/tag/cursor invariant I4-I7 of the design) is not proved." + CORR),
- "C02": ("proof", "Props/C02.v: a single claim log that no step of any execution reorders, rewrites or shortens (append-only), whose length is the head counter; the order of accepted values is fixed at the claiming steps. PARTIAL: delivery along this log per stream is not proved (see C01); producer order, real-time order and per-consumer monotonicity are checked by the oracle." + CORR),
+ "C02": ("proof", "Props/C02.v: a single claim log that no step of any execution reorders, rewrites or shortens (append-only), whose length is the head counter; the order of accepted values is fixed at the claiming steps; every commit of a consumer moves its stream's cursor from p to exactly p+1 (also on the plain-store paths of single-consumer handles, by the proved sole-consumer invariant), so positions are handed out in order. PARTIAL: delivery along this log per stream is not proved (see C01); producer order, real-time order and per-consumer monotonicity are checked by the oracle." + CORR),
  "C03": ("proof", "Props/C03.v: capacity = least power of two >= max(1, request) for all requests below 2^62-1; exact meaning of the producers' full test and of the scan distance under the no-wrap bound, for all inputs. PARTIAL: the window invariant (head <= cursor + N in every reachable state) is not proved." + CORR),
- "C07": ("proof", "Props/C07.v: in every reachable state the writers counter that receivers test before reporting the end equals the number of live sender handles, through clones and drops at any moment; a live sender handle keeps it positive. PARTIAL: 'the stream is drained when the end is reported' and 'the end is stable' are not proved." + CORR),
+ "C07": ("proof", "Props/C07.v: in every reachable state the writers counter that receivers test before reporting the end equals the number of live sender handles, through clones and drops at any moment; a live sender handle keeps it positive; once it is zero no step makes it non-zero again (the end is final). PARTIAL: 'the stream is drained when the end is reported' is not proved." + CORR),
+ "C10": ("proof", "Props/C10.v: the allocating step of add_stream initialises the new cursor with the parent's cursor as it is at that step; no step of any agent writes the cursor of a stream still in flight (only its creator knows it), so it is published with exactly that position; a published stream is in the published list as long as its creator or a handle holds it. PARTIAL: gap-free delivery from there on and 'no loss of backpressure' are not proved (for a parent shared with a concurrently receiving sibling this is known finding F11)." + CORR),
+ "C16": ("proof", "Props/C16.v (the part of the argument that does not depend on the epoch protocol): stream-list identifiers are allocated fresh, a list is never modified after allocation, the published identifier and every identifier an agent works on are allocated ones, and the list a publishing compare-exchange installs is the list it read plus/minus one stream - so the pointer re-validation of a scan compares identities of unmodified lists. PARTIAL: 'no freed object is ever dereferenced or freed twice' (epoch invariant I10) is not proved; the model flags such accesses and the correspondence compares them with the quarantine allocator of the harness." + CORR),
  "C08": ("proof", "Props/C08.v: adequacy of the wait condition (wait.rs check) for all sequence numbers below 2^62: released when no sender is left, when the awaited position is published, when the slot has moved past it; not released on a never-written slot or an older value while a sender lives. PARTIAL: the pending-notification invariant (no lost wake-up across lock/condvar steps) is not proved; fairness of the OS scheduler cannot be expressed." + CORR),
- "C11": ("proof", "Props/C11.v: the first step of unsubscribe/drop records whether the handle's own decrement found the count at 1; no later step of that call changes the record in any reachable state; the last step reports exactly that record. PARTIAL: removal from the published stream list and its effect on senders (stream-registry invariant) are not proved." + CORR),
- "C12": ("proof", "Props/C12.v: sender half of the mode invariant in every reachable state, for clones/drops at any moment: writers = number of live sender handles; a sender in single-writer mode is the only live sender. PARTIAL: the receiver half (single-consumer mode implies sole handle of the stream) and the observational equivalence of the modes are not proved." + CORR),
+ "C11": ("proof", "Props/C11.v: the first step of unsubscribe/drop records whether the handle's own decrement found the count at 1; no later step of that call changes the record in any reachable state; the last step reports exactly that record; the compare-exchange that publishes the shortened list installs exactly the current list minus the leaving handle's stream, and at that moment no agent has any weight on that stream. PARTIAL: that senders then stop being limited by it (window invariant) is not proved." + CORR),
+ "C12": ("proof", "Props/C12.v: the mode invariant in every reachable state, for clones/drops/conversions at any moment: writers = number of live sender handles and a sender in single-writer mode is the only live sender; for every stream the consumer count equals the total weight of the agents on it (handles, clones in flight, a stream in flight) and a handle that behaves as the only consumer (single-consumer mode, single-consumer receiver type, or an attempt that found the count at one) is the only agent with weight on its stream. These make the plain stores to the head counter and to the cursors sound (C01/C02 files). PARTIAL: observational equivalence of the modes for delivered values (slot invariant) is not proved." + CORR),
  "C13": ("proof", "Props/C13.v: NO_READER is sticky across every step; try_send tests the signal word it loaded; the test step of a send that loaded the flag returns Disconnected with its own value and claims nothing; in every reachable state whoever is past the test loaded a word without the flag. PARTIAL: that the flag is set when the last receiver's drop returns (stream-registry invariant) is not proved." + CORR),
  "C15": ("proof", "Props/C15.v: in every reachable state a task call (poll, start_send, poll_complete) is never at a program counter of the blocking wait strategies (no condvar wait, no Wait::wait loop inside the call). PARTIAL: NotReady identity and equality with the plain handles are not proved." + CORR),
  "C18": ("proof", "Props/C18.v: in every reachable state an agent inside try_send/try_recv/try_recv_view is never at a program counter of a wait strategy, of the futures park path or of the futures send loop; the control invariant (well-formed call stack, call/program-counter/side consistency) holds for all agents. PARTIAL: bounded solo termination (ranking function) is not proved." + CORR),
 }
-OTHER = ["C04", "C05", "C06", "C09", "C10", "C14", "C16", "C17"]
+OTHER = ["C04", "C05", "C06", "C09", "C14", "C17"]
 
 checks = []
 for pid in ["C%02d" % i for i in range(1, 19)]:
